@@ -985,6 +985,9 @@ type emfileScn struct {
 	StretchMS int    `json:"emfile_ms"`
 	Before    int    `json:"before"` // clients served before the stretch
 	During    int    `json:"during"` // clients connecting while accept fails (they wait in the kernel's accept queue)
+	// ShutdownDuring: Shutdown is called while accept is still failing; afterwards nothing of the server may
+	// touch the listener's descriptor number any more (a new listener of the application gets that number)
+	ShutdownDuring bool `json:"shutdown_during,omitempty"`
 }
 
 func runEmfile(s emfileScn) (sig, msg string) {
@@ -1055,6 +1058,76 @@ func runEmfile(s emfileScn) (sig, msg string) {
 		}
 		all = append(all, c)
 		during = append(during, c)
+	}
+	if s.ShutdownDuring {
+		time.Sleep(time.Duration(s.StretchMS/2) * time.Millisecond)
+		for _, c := range all {
+			c.Close()
+		}
+		all = nil
+		ctx, cancel := context.WithTimeout(context.Background(), 5*time.Second)
+		defer cancel()
+		if err := evl.Shutdown(ctx); err != nil {
+			return "shutdown-during-emfile", fmt.Sprintf("Shutdown during the EMFILE stretch returned %v", err)
+		}
+		select {
+		case <-done:
+		case <-time.After(5 * time.Second):
+			return "serve-not-returned", "Serve did not return after Shutdown"
+		}
+		atomic.StoreInt32(&on, 0)
+		// the application opens a listener of its own: it gets the lowest free descriptor number, usually the
+		// one the closed server's listener had. Its clients wait in its accept queue; nobody but the
+		// application may take them out.
+		// (two listeners: the closed server's listener had two descriptors, its own and the wrapped one)
+		var lns []net.Listener
+		var addrs []string
+		var cs []net.Conn
+		defer func() {
+			for _, c := range cs {
+				c.Close()
+			}
+			for _, l := range lns {
+				l.Close()
+			}
+		}()
+		for k := 0; k < 2; k++ {
+			l2, a2, err := e3Listen(s.Network)
+			if err != nil {
+				return "", ""
+			}
+			lns = append(lns, l2)
+			addrs = append(addrs, a2)
+			if s.Network == "unix" {
+				defer os.Remove(a2)
+			}
+		}
+		for _, a2 := range addrs {
+			for i := 0; i < 3; i++ {
+				if c, err := net.DialTimeout(nw, a2, 5*time.Second); err == nil {
+					cs = append(cs, c)
+				}
+			}
+		}
+		time.Sleep(2500 * time.Millisecond) // the re-accept goroutine backs off for at most 1 s
+		got := 0
+		for _, l2 := range lns {
+			for i := 0; i < 3; i++ {
+				if dl, ok := l2.(interface{ SetDeadline(time.Time) error }); ok {
+					dl.SetDeadline(time.Now().Add(2 * time.Second))
+				}
+				c, err := l2.Accept()
+				if err != nil {
+					break
+				}
+				got++
+				c.Close()
+			}
+		}
+		if got != len(cs) {
+			return "accepts-after-shutdown", fmt.Sprintf("after Shutdown (called while accept was failing with EMFILE) the application opened a listener of its own; %d clients connected to it, it could accept only %d: somebody else is still calling accept on its descriptor number", len(cs), got)
+		}
+		return "", ""
 	}
 	time.Sleep(time.Duration(s.StretchMS) * time.Millisecond)
 	atomic.StoreInt32(&on, 0)
@@ -1128,6 +1201,7 @@ func TestVerifC13Live(t *testing.T) {
 		if rapid.IntRange(0, 3).Draw(t, "emfile") == 0 {
 			es := emfileScn{Network: rapid.SampledFrom([]string{"tcp4", "unix"}).Draw(t, "network"), Before: rapid.IntRange(0, 2).Draw(t, "before"), During: rapid.IntRange(1, 3).Draw(t, "during")}
 			es.StretchMS = rapid.SampledFrom([]int{20, 150, 700, 2300}).Draw(t, "stretch")
+			es.ShutdownDuring = rapid.IntRange(0, 2).Draw(t, "shutdownDuring") == 0
 			vJournal(map[string]interface{}{"scenario": es})
 			sig, msg := runEmfile(es)
 			st.eval()
